@@ -72,6 +72,10 @@ def _fresh_callable(f):
     return g
 
 
+class Interrupted(BaseException):
+    """Stands for KeyboardInterrupt / SystemExit arriving inside an operation (nth < 0 in update_raise)."""
+
+
 class World:
     def __init__(self, cfg, alpha):
         self.cfg = cfg
@@ -258,6 +262,8 @@ class World:
             def boom(old):
                 calls[0] += 1
                 if calls[0] >= nth:
+                    if nth < 0:
+                        raise Interrupted("interrupted inside a user callable")  # not an Exception subclass
                     raise RuntimeError("user callable failed")
                 return {"time": A.t[0], "measurement": "n", "tags": {"a": A.z}, "fields": {"w": 9}}[attr]
 
@@ -418,7 +424,7 @@ def ref_apply(op, contents, alpha, now=common.CLOCK_START):
         m = meas if via == "db" else via[2:]
         pred = (lambda rp: True) if ast is None else refmodel.q_pred(ast)
         nsel = len(refmodel.select(C, pred, m))
-        if nsel >= nth:
+        if nsel >= max(nth, 1):
             return C, ("exc",)
         return None, None  # completes normally: not a fault here (callers skip it via fault_enabled)
     if k == "update_badret":
@@ -453,7 +459,7 @@ def fault_enabled(op, contents):
         _, ast, attr, nth, pre_attr, meas, via = op
         m = meas if via == "db" else via[2:]
         pred = (lambda rp: True) if ast is None else refmodel.q_pred(ast)
-        return len(refmodel.select(contents, pred, m)) >= nth
+        return len(refmodel.select(contents, pred, m)) >= max(nth, 1)
     return True
 
 
